@@ -11,7 +11,7 @@ structs=[]
 for mod,f in FILES:
     src=open('/repo/'+f).read()
     src=src.split('#[cfg(test)]')[0]
-    for m in re.finditer(r'((?:#\[[^\]]*\]\s*)+)pub struct (\w+)\s*\{(.*?)\n\}', src, re.S):
+    for m in re.finditer(r'((?:#\[[^\]]*\]\s*)+)pub struct (\w+)\s*\{(.*?)\n?\}', src, re.S):
         attrs,name,body=m.groups()
         if 'Zvt' not in attrs: continue
         cf=re.search(r'zvt_control_field\(class\s*=\s*(\w+),\s*instr\s*=\s*(\w+)\)',attrs)
